@@ -240,7 +240,8 @@ def shared_freelist(ctx, rule='C06.shared-freelist'):
                 if e['ev'] == 'P' or (e['ev'] == 'R' and e.get('shared') and False):
                     n += 1
                     owner = f.owner if f.kind == 'Closure' else f
-                    if owner is dbopen or owner in commit_fns:
+                    import c03
+                    if owner is dbopen or owner in commit_fns or c03._only_via(F, owner, dbopen):
                         continue
                     res.append(bad(rule, '%s | publishes into the shared free list (%s)' % (f.qual, e.get('how')),
                                    '%s modifies the shared free list at %s (%s); only the commit (behind the header write) and DBInner::open may: an abandoned or read-only '
